@@ -710,6 +710,9 @@ func (c *EvalCtx) evalCall(e *Expr) TVal {
 			return c.mk(sel(sel(dom, m.T), k.T), sBool, tb)
 		}
 		return c.mk(and(not(eq(m.T, "0")), sel(sel(dom, m.T), k.T)), sBool, tb)
+	case "nolocks":
+		// the calling goroutine holds no lock at all
+		return c.mk("(= "+fr.heapCur(c.st, w.HeldHeap())+" ((as const (Array Int Int)) 0))", sBool, tb)
 	case "held", "wheld", "rheld", "unheld":
 		a := c.mutexAddrOf(e.Args[0])
 		h := sel(fr.heapCur(c.st, w.HeldHeap()), a)
